@@ -29,7 +29,15 @@ through a class / an instance runs `new` inside asyncio mode, the other three co
 (signature `fail:asyncio-mode-reaches-replacement/through-class@call`; theorems `C19_conventions_disagree_counterexample`,
 `C19_asyncio_mode_counterexample`; `C19_spec_holds_current_partial` carries the hypothesis that excludes it).  The observer
 now also demands of EVERY observation, tainted history or not, a well-formed result (four outcomes per call, one store entry
-per target) and that construct / call / peek / rebind change no host (`shape@`, `frame@`)."""
+per target) and that construct / call / peek / rebind change no host (`shape@`, `frame@`).
+
+Round 5 (interactions): keyword arguments are passed under realistic NAMES (`fn=`, `args=`, `mock_fn=`, `cls=` ...;
+KW_NAMES: a key of the model >= KWN_BASE is realised as that identifier) - family `kwnames` (every name x replacement kind)
+and a quarter of the random histories; callables (a callback, an @asynq() function, a mock) among the argument objects;
+family `enterfail` got the CLASS of the exception the product's `__setattr__` raises (`EnterFail.ExcClass`, theorems
+`C19_enter_failure_restores_any_exception`, `C19_enter_failure_catch_all_necessary`), the assignment that fails (`asynq`
+/ `async` / `asyncio`), a DEFAULT mock made attribute-rejecting by `spec_set=`, the activation inside an open patch of
+the same target and a second use of the failing patcher."""
 import hashlib
 import json
 import random
@@ -63,6 +71,8 @@ HEADLINE_THEOREMS = [
     "AsynqModel.Mock.C19_new_callable_asynq16_counterexample",
     "AsynqModel.Mock.EnterFail.C19_enter_failure_restores",
     "AsynqModel.Mock.EnterFail.C19_enter_failure_needs_undo",
+    "AsynqModel.Mock.EnterFail.C19_enter_failure_restores_any_exception",
+    "AsynqModel.Mock.EnterFail.C19_enter_failure_catch_all_necessary",
 ]
 # ... and statements that HOLD BY CONSTRUCTION OF THE MODEL (one unfolding of `step` / `enter` / `resolveP` from an
 # arbitrary state, or a corollary of C19_conventions_agree_partial; the model has no way to say anything else: objects are
@@ -121,7 +131,17 @@ RULE = RULE_OLD + (
     "reject attributes x 5 activation styles (judged by Mock.EnterFail)"
     "; SECOND AUDIT: family `modes`: a replacement that makes an ordinary synchronous call of another @asynq() function "
     "(sensitive to asyncio mode) x 11 target configurations x 26 replacement configurations x 3 activations (quick; 10 in "
-    "thorough), and the same behaviour for ~8% of the patchers of the random histories")
+    "thorough), and the same behaviour for ~8% of the patchers of the random histories"
+    "; ROUND 5: keyword arguments under 64 realistic NAMES (fn, func, args, kwargs, mock_fn, cls, new, target, async, ...; "
+    "a key of the model >= 1000 is realised as that identifier): family `kwnames` = every name x 16 replacement "
+    "configurations (x 6 access paths in the thorough tier, one per cell in the quick tier), each with the name alone, "
+    "next to positional / exotic arguments and among two other names, and ~25% of the random histories; callables "
+    "(callback, @asynq() function, MagicMock) among the exotic argument objects; family `enterfail` widened to 4 targets "
+    "x (4 old products + 6 exception classes raised by the product's __setattr__ [AttributeError subclass, ValueError, "
+    "KeyError subclass, RuntimeError, falsy exception, BaseException-only] x 3 failing assignments [asynq / async / "
+    "asyncio] + DEFAULT mock with spec_set= a callable class / an @asynq() function) x 5 activation styles, alone / inside "
+    "an open patch of the same target, first / second use of the patcher (all four combinations in the thorough tier, one "
+    "per cell in the quick tier)")
 TRUSTED = [
     "hand-written Lean model AsynqModel.Lib.Mock tied to the code by this differential run only",
     "Python harness checks/c19.py (object <-> token identity registry, vars(host) peeks, recursive-descent "
@@ -149,8 +169,11 @@ ASSUMPTIONS = [
     "back in place) and about results while the patch is active, both of which hold; what remains on the "
     "replacement after the patch has ended is outside the statement and is neither modelled nor checked",
     "replacement functions are ordinary (non-generator) callables that do not return generator objects or "
-    "mock.DEFAULT; spec/spec_set/autospec=True/kwargs of patch are not exercised; keyword argument names are never "
-    "`self` (CPython: `__call__(self, *args, **kwargs)` of every wrapper, also of asynq's own decorators, rejects it)",
+    "mock.DEFAULT; spec/autospec=True/kwargs of patch are not exercised, spec_set only as a way to make the DEFAULT mock "
+    "reject attributes (family enterfail); keyword argument names are never "
+    "`self` (CPython: `__call__(self, *args, **kwargs)` of every wrapper, also of asynq's own decorators, rejects it); "
+    "the names that ARE used (KW_NAMES) are a finite list of identifiers a helper of the library could plausibly use for "
+    "a parameter of its own - a collision with a name outside the list is not seen",
     "exceptions whose __repr__/__eq__ raise are not used as errors of a replacement (asyncio.run itself fails on "
     "them in the standard library); they are used as RESULT objects and ARGUMENTS",
     "rebinding is done by the test itself (`setattr(pkg, 'Owner', other)`); only the owner directly before the "
@@ -172,7 +195,32 @@ INST_TOK = 900001
 CLS_TOK = 900002
 NONE_TOK = 900003          # the result token of every replacement that returns None (one object, one token)
 ARG_BASE = 800000          # argument tokens ARG_BASE+i stand for the exotic argument objects of the world (see run_case)
-N_ARGOBJ = 10
+N_ARGOBJ = 13
+# ROUND 5: keyword argument NAMES.  A keyword key k < KWN_BASE is passed as `k<k>`; key KWN_BASE+i is passed under the
+# realistic identifier KW_NAMES[i] - names a helper inside the library could use for a parameter of its own, so that a
+# caller's `**kwargs` sharing a namespace with it (`helper(fn, *args, **kwargs)`) shows.  The model has keys as numbers
+# and quantifies over all of them; the name is the harness-level realisation of the key.  `self` is excluded (see
+# ASSUMPTIONS), `_c` / `_b` are keyword-only parameters of the harness's own original functions.
+KWN_BASE = 1000
+KW_NAMES = ["fn", "func", "f", "function", "callback", "mock_fn", "_mock_fn", "mock", "new", "target", "args", "kwargs",
+            "a", "k", "kw", "cls", "instance", "owner", "obj", "wrapper", "wrapped", "async_fn", "asyncio_fn", "sync_fn",
+            "task", "value", "result", "future", "name", "attr", "attribute", "getter", "spec", "create", "autospec",
+            "new_callable", "return_value", "side_effect", "pure", "coro", "loop", "_args", "_kwargs", "generator",
+            "send", "exception", "exc", "attempts", "key", "default", "timeout", "callable", "method", "this",
+            "mock_self", "_mock_self", "parent", "_new_name", "async", "asynq", "asyncio", "lambda_", "it", "x"]
+
+
+def kw_name(k):
+    return KW_NAMES[k - KWN_BASE] if KWN_BASE <= k < KWN_BASE + len(KW_NAMES) else "k%d" % k
+
+
+_KW_NUM = {n: KWN_BASE + i for i, n in enumerate(KW_NAMES)}
+
+
+def kw_num(name):
+    if name in _KW_NUM:
+        return _KW_NUM[name]
+    return int(name[1:]) if name[:1] == "k" and name[1:].isdigit() else UNKNOWN
 
 RKINDS = ["plain", "none", "falsy", "constFuture", "lazyFuture", "errorFuture", "task", "excInstance", "exotic",
           "container"]
@@ -355,6 +403,37 @@ def sizes_cases():
     return cases
 
 
+KWNAME_REPLS = KIND_REPLS + [("smobj", "", 0), ("func", "lambda", 0), ("callobj", "partial", 0), ("afunc", "gen", 0),
+                             (["newCallable", 1], "", 0), ("sealed", "typeerr", 0)]
+
+
+def kwnames_cases(tier):
+    """ROUND 5: keyword arguments under realistic NAMES (`fn=`, `args=`, `mock_fn=`, `cls=` ...): every name x every
+    replacement kind (x every access path in the thorough tier, one of them per cell in the quick tier); each case calls
+    with the name alone, with the name next to positional arguments, and with two more names"""
+    cases = []
+    n = 0
+    for i in range(len(KW_NAMES)):
+        for rc in KWNAME_REPLS:
+            tcs = KIND_TARGETS if tier == "thorough" else [KIND_TARGETS[(n + i) % len(KIND_TARGETS)]]
+            for tc in tcs:
+                n += 1
+                k0 = KWN_BASE + i
+                k1 = KWN_BASE + (i + 1 + n % 7) % len(KW_NAMES)
+                k2 = KWN_BASE + (i + 9 + n % 11) % len(KW_NAMES)
+                if k2 == k1:
+                    k2 = 3
+                inner = [["call", 0, [], [[k0, 5]]],
+                         ["call", 0, [1, ARG_BASE + n % N_ARGOBJ], [[k0, ARG_BASE + (n + 3) % N_ARGOBJ], [0, 4]]],
+                         ["call", 0, [2], [[k1, 6], [k0, 7], [k2, 8]]]]
+                ops = [construct(0, 0, rc, False, ["ret", 30 + n % 50] if n % 5 else ["raise", n % 4],
+                                 ["patch", "object"][n % 2])]
+                ops += activation_ops(0, ["with", "deco", "start-stop", "classdeco"][n % 4], inner)
+                ops += [["call", 0, [6], [[k0, 9]]]]
+                cases.append({"targets": [tgt(tc)], "ops": ops, "family": "kwnames"})
+    return cases
+
+
 # (primary configuration, configuration of the alternate owner that the name is rebound to)
 REBIND_PAIRS = [
     (("func", "class", "loc", "inst"), ("func", "class", "loc", "inst")),     # pkg.Service -> pkg.ServiceV2
@@ -484,19 +563,41 @@ def modes_cases(tier):
 ENTERFAIL_TARGETS = [TARGET_CONFIGS[0], TARGET_CONFIGS[1], TARGET_CONFIGS[3], TARGET_CONFIGS[9]]
 ENTERFAIL_PRODUCTS = [("accepting", ""), ("noncallable", ""), ("rejecting", "slots"), ("rejecting", "typeerr")]
 ENTERFAIL_STYLES = ["with", "deco", "classdeco", "start-stop", "start-stopall"]
+# ROUND 5: WHICH exception the product's `__setattr__` raises (variant name = AsynqModel.Mock.EnterFail.ExcClass), and
+# at WHICH of the three assignments of `_PatchAsync.__enter__` (`asynq` = the first, `async`, `asyncio` = only the last)
+ENTERFAIL_EXCS = ["attrSub", "valueError", "lookupSub", "runtimeError", "falsyExc", "baseOnly"]
+ENTERFAIL_AT = ["asynq", "async", "asyncio"]
+ENTERFAIL_EXC_ATOM = {"": "attributeError", "slots": "attributeError", "typeerr": "typeError",
+                      "specset": "attributeError", "specsetfn": "attributeError"}
 
 
-def enterfail_cases():
+def enterfail_cases(tier="quick"):
     """new_callable products that `_PatchAsync.__enter__` can / cannot decorate (judged by the small Lean model
-    AsynqModel.Mock.EnterFail - the history model has no attribute-rejecting product)"""
+    AsynqModel.Mock.EnterFail - the history model has no attribute-rejecting product).  Round 5: the class of the
+    exception the product raises x the assignment that fails x alone / inside an open patch of the same target x first /
+    second use of the patcher"""
     cases = []
     n = 0
+    prods = [(p, v, "asynq") for p, v in ENTERFAIL_PRODUCTS]
+    prods += [("rejecting", e, at) for e in ENTERFAIL_EXCS for at in ENTERFAIL_AT]
+    # not a new_callable product but the DEFAULT mock made attribute-rejecting by `spec_set=` (a callable class: refuses
+    # `asynq`; an @asynq() function: has `asynq` and `asyncio`, refuses `async`) - the same half-done `__enter__`
+    prods += [("rejecting", "specset", "asynq"), ("rejecting", "specsetfn", "async")]
     for tc in ENTERFAIL_TARGETS:
-        for prod, var in ENTERFAIL_PRODUCTS:
+        for prod, var, at in prods:
             for style in ENTERFAIL_STYLES:
                 n += 1
-                cases.append({"family": "enterfail", "targets": [tgt(tc)], "product": prod, "pvariant": var,
-                              "style": style, "api": ["patch", "object"][n % 2]})
+                combos = [(o, u) for o in (0, 1) for u in (1, 2)] if tier == "thorough" else [(n % 2, 1 + (n // 2) % 2)]
+                for outer, uses in combos:
+                    c = {"family": "enterfail", "targets": [tgt(tc)], "product": prod, "pvariant": var,
+                         "style": style, "api": ["patch", "object"][n % 2]}
+                    if at != "asynq":
+                        c["reject_at"] = at
+                    if outer:
+                        c["outer"] = 1
+                    if uses > 1:
+                        c["uses"] = uses
+                    cases.append(c)
     return cases
 
 
@@ -515,6 +616,7 @@ def gen_history(rng, malformed=False):
             targets.append(tgt(rng.choice(same), slot=s_))
             alts.setdefault(s_, [s_]).append(len(targets) - 1)
     exotic = rng.random() < 0.3       # this history uses unusual result / argument objects
+    named = rng.random() < 0.25       # this history passes keyword arguments under realistic names (KW_NAMES)
     np_ = rng.choice([1, 2, 2, 3, 3, 4, 5, 6])
     ops = []
     if alts and rng.random() < 0.3:   # the name already refers to another owner when the patchers are built
@@ -553,6 +655,10 @@ def gen_history(rng, malformed=False):
             t = rng.choice(sorted(alts))
         args = [rand_arg() for _ in range(rng.choice([0, 1, 1, 2, 3]))]
         kw = [[k, rand_arg()] for k in range(rng.choice([0, 0, 1, 2]))]
+        if named:
+            # realistic keyword NAMES (distinct keys), before / between / after the numbered ones
+            for k in rng.sample(range(len(KW_NAMES)), rng.choice([1, 1, 2, 3])):
+                kw.insert(rng.randint(0, len(kw)), [KWN_BASE + k, rand_arg()])
         return ["call", t, args, kw]
 
     def seq(depth, open_, budget):
@@ -655,8 +761,8 @@ def corpus():
 def plan(tier, seed):
     rng = random.Random(seed * 1000003 + 19)
     cases = corpus() + product_cases(tier) + nested_cases()
-    cases += kinds_cases(tier) + sizes_cases() + rebind_cases(tier) + deep_cases() + shared_cases() + enterfail_cases()
-    cases += modes_cases(tier)
+    cases += kinds_cases(tier) + sizes_cases() + rebind_cases(tier) + deep_cases() + shared_cases() + enterfail_cases(tier)
+    cases += modes_cases(tier) + kwnames_cases(tier)
     n = 1200 if tier == "quick" else 20000
     for i in range(n):
         cases.append(gen_history(rng, malformed=(i % 8 == 7)))
@@ -727,6 +833,16 @@ def shrink(case):
             yield mk(ops[:i] + [[o[0], o[1], 1]] + ops[i + 1:])
         if o[0] == "call" and any(a >= ARG_BASE for a in o[2]):
             yield mk(ops[:i] + [["call", o[1], [a for a in o[2] if a < ARG_BASE], o[3]]] + ops[i + 1:])
+    # a numbered keyword instead of a named one, one keyword less
+    for i, o in enumerate(ops):
+        if o[0] == "call" and any(kk >= KWN_BASE for kk, _ in o[3]):
+            used = {kk for kk, _ in o[3]}
+            free = iter(k for k in range(90, 0, -1) if k not in used)
+            yield mk(ops[:i] + [["call", o[1], o[2], [[next(free) if kk >= KWN_BASE else kk, vv] for kk, vv in o[3]]]]
+                     + ops[i + 1:])
+        if o[0] == "call" and len(o[3]) > 1:
+            for j in range(len(o[3])):
+                yield mk(ops[:i] + [["call", o[1], o[2], o[3][:j] + o[3][j + 1:]]] + ops[i + 1:])
     # fewer arguments in calls
     for i, o in enumerate(ops):
         if o[0] == "call" and (o[2] or o[3]):
@@ -758,7 +874,8 @@ def signature(case, v):
     clause = v.get("spec", "ok")
     extra = ""
     if case.get("family") == "enterfail":
-        return "%s/new_callable-product-%s" % (clause, case.get("product"))
+        raises = "/setattr-raises-%s" % case["pvariant"] if case.get("pvariant") in ENTERFAIL_EXCS else ""
+        return "%s/new_callable-product-%s%s" % (clause, case.get("product"), raises)
     if clause.startswith("fail:construct@"):
         nc = [i for i, o in enumerate(case["ops"]) if o[0] == "construct" and isinstance(o[3], list) and not o[5]]
         m = re.match(r"obs (\d+):", v.get("detail", "") or "")
@@ -771,7 +888,13 @@ def signature(case, v):
         # else of the case may enter it)
         m = re.search(r"model=(.*?) impl=", v.get("detail", "") or "")
         kinds = (set(re.findall(r"(?:RKind|EKind)\.(\w+)", m.group(1))) if m else set()) - {"plain", "exception"}
-        if kinds & {"constFuture", "lazyFuture", "errorFuture", "task"}:
+        m2 = re.search(r"model=(.*?) impl=(.*)$", v.get("detail", "") or "", re.S)
+        named = m2 and re.search(r"Op\.call \d+ \[[^\]]*\] \[[^\]]*\((\d{4,}),", m2.group(2))
+        if named and int(named.group(1)) >= KWN_BASE and "Exc.typeError" in m2.group(2) \
+                and "Exc.typeError" not in m2.group(1):
+            # one convention alone answers TypeError to a call that passes a keyword argument under a realistic name
+            extra = "/typeError-for-named-keyword"
+        elif kinds & {"constFuture", "lazyFuture", "errorFuture", "task"}:
             extra = "/result-is-an-asynq-future"
         elif kinds:
             extra = "/result-kind=" + "+".join(sorted(kinds))
@@ -886,6 +1009,16 @@ def run_enterfail(case):
         hobj, path = inst, "%s.inst.%s" % (modname, name)
     setattr(Svc if ts["host"] == "inherited" else hobj, name, orig)
     prods = []
+    raised = []       # the exception objects the products' `__setattr__` raised (identity)
+    pvar = case.get("pvariant", "")
+    at = case.get("reject_at", "asynq")
+    refused = {"asynq": ("asynq", "async", "asyncio"), "async": ("async", "asyncio"), "asyncio": ("asyncio",)}[at]
+
+    class AttrSub(AttributeError):
+        pass
+
+    exc_cls = {"attrSub": AttrSub, "valueError": ValueError, "lookupSub": KeyErrSub, "runtimeError": RuntimeError,
+               "falsyExc": FalsyErr, "baseOnly": BaseOnlyErr}.get(pvar)
 
     def factory(**kw):
         if case["product"] == "accepting":
@@ -894,12 +1027,24 @@ def run_enterfail(case):
                     return 1
         elif case["product"] == "noncallable":
             Made = Plain
-        elif case["pvariant"] == "typeerr":
+        elif pvar == "typeerr":
             class Made(object):
                 __slots__ = ()
 
                 def __setattr__(self, k, v):
                     raise TypeError("no attributes on this extension type")
+
+                def __call__(self, *a, **k):
+                    return 1
+        elif exc_cls is not None:
+            # a callable fake in the style of a validated model: undeclared fields are refused with its own exception
+            class Made(object):
+                def __setattr__(self, k, v):
+                    if k in refused:
+                        e = exc_cls('"Made" object has no field "%s"' % k)
+                        raised.append(e)
+                        raise e
+                    object.__setattr__(self, k, v)
 
                 def __call__(self, *a, **k):
                     return 1
@@ -913,22 +1058,44 @@ def run_enterfail(case):
         prods.append(o)
         return o
 
+    class OuterFake(object):
+        def __call__(self, *a, **k):
+            return 2
+
+    outer_fake = OuterFake()
+    before = [orig]        # what the host holds when the activation under test begins
+
     def held():
         v = vars(hobj).get(name, _MISSING)
-        if v is orig or (v is _MISSING and ts["host"] == "inherited"):
+        if v is before[0] or (before[0] is orig and v is _MISSING and ts["host"] == "inherited"):
             return "orig"
         return "product" if any(v is x for x in prods) else "other"
 
     kw = {"new_callable": factory, "autospec": None}
+    if pvar == "specset":
+        class SpecCls(object):
+            def __call__(self, *a, **k):
+                return 3
+        kw = {"spec_set": SpecCls}
+    elif pvar == "specsetfn":
+        kw = {"spec_set": asynq.asynq()(lambda *a, **k: 3)}
     pt = asynq.mock.patch.object(hobj, name, **kw) if case["api"] == "object" else asynq.mock.patch(path, **kw)
     state = {"entered": 0, "during": "none"}
 
     def body(*extra):
         state["entered"] = 1
-        state["during"] = held()
+        if state["during"] in ("none", "product"):      # (a second use must show the same as the first)
+            state["during"] = held()
 
     style = case["style"]
-    try:
+
+    def ours(e):
+        """the failure of the attribute assignment itself (and nothing else)"""
+        if any(e is x for x in raised):
+            return True
+        return exc_cls is None and isinstance(e, (AttributeError, TypeError))
+
+    def activate():
         try:
             if style == "with":
                 with pt:
@@ -950,18 +1117,37 @@ def run_enterfail(case):
                         pt.stop()
                     else:
                         asynq.mock.patch.stopall()
-        except (AttributeError, TypeError):
-            if state["entered"]:
+        except BaseException as e:
+            if state["entered"] or not ours(e):
                 raise
-        after = held()
+
+    try:
+        if case.get("outer"):
+            # the activation under test happens inside an open patch of the SAME target: the outer replacement must be
+            # back when it is over, and the original when the outer block is
+            with asynq.mock.patch.object(hobj, name, outer_fake):
+                before[0] = outer_fake
+                for _ in range(case.get("uses", 1)):
+                    activate()
+                after = held()
+            before[0] = orig
+            if held() != "orig":
+                after = "other"
+        else:
+            for _ in range(case.get("uses", 1)):
+                activate()
+            after = held()
     finally:
         if _active:
             del _active[:]
         sys.modules.pop(modname, None)
-    lines = ["(case mockfail %d %s %s)" % (case["id"], case["product"], style),
+    exc_atom = ENTERFAIL_EXC_ATOM.get(pvar, pvar)
+    lines = ["(case mockfail %d %s %s %s)" % (case["id"], case["product"], style, exc_atom),
              "(obs %d %s %s)" % (state["entered"], state["during"], after), "(end)"]
     feats = ["family=enterfail", "product=%s%s" % (case["product"], "/" + case["pvariant"] if case["pvariant"] else ""),
-             "style=" + style, "target=%s/%s/%s/%s" % (ts["kind"], ts["where"], ts["host"], ts["via"])]
+             "style=" + style, "target=%s/%s/%s/%s" % (ts["kind"], ts["where"], ts["host"], ts["via"]),
+             "reject_at=" + at, "inside_open_patch=%d" % (1 if case.get("outer") else 0),
+             "uses=%d" % case.get("uses", 1)]
     key = hashlib.sha1(json.dumps(case, sort_keys=True).encode()).hexdigest()[:16]
     return {"lines": lines, "features": feats, "nontrivial": key}
 
@@ -1069,7 +1255,9 @@ def run_case(case):
 
     # exotic argument objects: token ARG_BASE+i <-> argobjs[i], by identity
     argobjs = [None, False, [], asynq.ConstFuture(("arg", 3)), asynq.Future(lambda: ("arg", 4)), Weird(), (), 0.0,
-               ValueError("an argument"), mock.DEFAULT]
+               ValueError("an argument"), mock.DEFAULT,
+               # round 5: callables handed through as arguments (a callback, an @asynq() function, a mock)
+               (lambda: "cb"), dep_fn, mock.MagicMock()]
     assert len(argobjs) == N_ARGOBJ
 
     def arg_obj(a):
@@ -1089,8 +1277,7 @@ def run_case(case):
 
     def do(callee, behav, a, k):
         log.append("(%s (%s) (%s))" % (callee, " ".join(str(arg_tok(x)) for x in a),
-                                       " ".join("(%s %d)" % (kk[1:] if kk[:1] == "k" and kk[1:].isdigit() else UNKNOWN,
-                                                             arg_tok(vv)) for kk, vv in k.items())))
+                                       " ".join("(%d %d)" % (kw_num(kk), arg_tok(vv)) for kk, vv in k.items())))
         if behav[0] == "raise":
             raise behav[1]
         if behav[0] == "sync":
@@ -1331,7 +1518,7 @@ def run_case(case):
                 new = functools.partial(fn)
             elif variant == "class":
                 class CallCls(object):
-                    def __new__(cls, *a, **k):
+                    def __new__(cls, /, *a, **k):
                         return do(given, behav, a, k)
                 new = CallCls
             elif variant == "falsy":
@@ -1502,7 +1689,9 @@ def run_case(case):
 
     def do_call(op):
         t, args, kwl = op[1], [arg_obj(a) for a in op[2]], op[3]
-        kw = {"k%d" % kk: arg_obj(vv) for kk, vv in kwl}
+        kw = {kw_name(kk): arg_obj(vv) for kk, vv in kwl}
+        if len(kw) != len(kwl):
+            raise ValueError("harness: duplicate keyword key in %r" % (op,))
         get = lambda: lookup(t)
         if t in open_targets:
             stats["calls_in_patch"] += 1
@@ -1662,6 +1851,8 @@ def run_case(case):
                                                "/alternate" if "slot" in ts else "") for ts in tspecs})
     if any(o[0] == "call" and any(a >= ARG_BASE for a in o[2] + [v for _, v in o[3]]) for o in ops):
         feats.append("args=exotic")
+    if any(o[0] == "call" and any(kk >= KWN_BASE for kk, _ in o[3]) for o in ops):
+        feats.append("kwargs=named")
     mx = max([len(o[2]) + len(o[3]) for o in ops if o[0] == "call"] or [0])
     feats.append("args<=%d" % next(b for b in (0, 2, 5, 20, 10 ** 9) if mx <= b))
     nontrivial = None
